@@ -325,6 +325,9 @@ type entryRes struct {
 	// decimal snapshots taken at observation time: results handed out earlier must not change
 	// when later calls are made (aliasing of pooled / cached big.Int values)
 	hvSnap, leafSnap string
+	// Values returned by Proof through package-level / zero paths: (MtEntry, kind)
+	pkgPV   []*big.Int
+	pkgKind []int
 }
 
 func safeHash(h merklize.Hasher, dt string, raw any) (v *big.Int, msg string, panicked bool) {
@@ -605,6 +608,10 @@ func (d *drv) observe(mz *merklize.Merklizer, h merklize.Hasher, mapKey string, 
 				pv = x
 				return err
 			})
+			if pv != nil && kind >= 0 {
+				r.pkgPV = append(r.pkgPV, pv)
+				r.pkgKind = append(r.pkgKind, kind)
+			}
 			if o.Class != "ok" || pv == nil || pv.Cmp(leaf) != 0 || kind != kindImplied(r.dt) {
 				d.rep.Fail("c10-proof-value-package-path", fmt.Sprintf("Proof(%v) through a %s: Value hashes to %v (%s %s), kind %d; leaf is %s", v.Parts,
 					[]string{"merklize.NewPath path", "zero Path"}[i], pv, o.Class, o.Msg, kind, leaf), withPath())
@@ -695,6 +702,11 @@ func (d *drv) addGroup(mz *merklize.Merklizer, compacted map[string]any, hi int,
 			kind = 0
 		}
 		g.obs = append(g.obs, obsTuple{dt: r.view.Datatype, leaf: r.leaf, pv: pv, kind: kind, parts: r.view.Parts})
+		// the same entry as seen through package-level / zero paths: the model predicts the SAME
+		// tuple (Proof hashes the Value with the merklizer's hasher whatever the path carries)
+		for i := range r.pkgPV {
+			g.obs = append(g.obs, obsTuple{dt: r.view.Datatype, leaf: r.leaf, pv: r.pkgPV[i], kind: r.pkgKind[i], parts: r.view.Parts})
+		}
 		if r.rawErr == nil {
 			g.hvs = append(g.hvs, hvCase{dt: r.dt, v: jvOf(r.raw), ok: r.hv != nil, val: r.hv, panic: r.hvPanic})
 		}
